@@ -77,6 +77,8 @@ def cases(tier, seed):
         nondeg = not cfg.get('r') and not cfg.get('name')
         P = pat.RND(d, 40, rng, max_len=5 if d <= 3 else 4, min_len=1, order=list(range(2 ** d)))
         out.append(dict(kind='access', cfg=cfg, ka=list(range(2 ** d)) if d <= 4 else list(P[0])))
+        if d <= 3:
+            out.append(dict(kind='matrix', cfg=cfg))
         for op in BIN:
             ka, kb = rng.choice(P), rng.choice(P)
             if op in ('sw', 'proj', 'div') and d >= 4:
@@ -125,6 +127,10 @@ def _phi(km_c, km_0, items):
 def run_case(desc, V):
     if desc['kind'] == 'reject':
         return _run_reject(desc, V)
+    if desc['kind'] == 'matrix':
+        # the matrix representation in the custom basis: homomorphism, first column, frommatrix (C18's relation)
+        from . import c18
+        return c18.run_case(dict(kind='hom', cfg=desc['cfg'], custom=True), V)
     from kingdon.multivector import MultiVector
     C = get_alg(desc['cfg'])
     D = get_alg(dict(_default_cfg(desc['cfg']), start_index=C.start_index))
